@@ -15,7 +15,8 @@ COVER = ("multi-step histories on one long-lived module (train / eval / frozen /
          "world sizes 2-4 with masked and scarce batches; all pairs of PER-CALL options and ambient contexts (mask / lens, indices= targets, per-call temperature 0 and negative, freeze_codebook, "
          "return_loss_breakdown, return_all_codes, explicit dropout seeds, no_grad / inference_mode / grad-requiring inputs, CPU autocast, gradients left on the parameters by the caller, the caller "
          "writing in place into returned tensors), decode helpers and coarse-prefix decodes inside the histories, a second replica's forward interleaved at calls into process-global random "
-         "generators, cosine Jacobians, cross-head independence of the sampling noise. In addition every function the property depends on is fingerprinted, so an edit is noticed - what matters "
+         "generators, cosine Jacobians, cross-head independence of the sampling noise, inputs handed over as dense permuted views / strided slices / storage offsets / channels-last, "
+         "modules whose parameters were frozen with requires_grad_(False) (then reloaded / written in place / unfrozen), a k-means exception granted only once. In addition every function the property depends on is fingerprinted, so an edit is noticed - what matters "
          "is whether a concrete failing input is then found")
 for pid in ids:
     p = props[pid]
@@ -39,7 +40,7 @@ Your job: produce ONE small, realistic source change (1-12 changed lines inside 
  - TWO cooperating sites that each look fine alone;
  - a violation that needs a particular MULTI-STEP history or a particular combination of legal options and input values nobody would think of enumerating;
  - an "optimisation" that is wrong only sometimes (numerically: only for particular magnitudes or exact ties; structurally: only for particular shapes such as a batch of one, one code, one head, dim 1; temporally: only on the n-th call);
- - an interaction with a torch feature the checkers did not list (torch.compile is NOT available; think of channels-last / non-contiguous / expanded (stride-0) / sliced inputs, negative strides via flip, views that alias the caller's tensor, requires_grad on buffers, hooks, set_default_dtype, deterministic-algorithms mode, train() / eval() toggled on sub-modules only, parameters frozen with requires_grad_(False), modules shared between two parents, pickling).
+ - an interaction with a torch feature the checkers did not list (torch.compile is NOT available; think of expanded (stride-0) inputs and outputs that alias the caller's tensor or each other, requires_grad on buffers, forward / state_dict hooks, torch.set_default_dtype, deterministic-algorithms mode, train() / eval() toggled on sub-modules only, modules or codebooks shared between two parents, pickling / torch.save of the whole module, zero-size batches, integer or bool inputs, meta / to_empty construction).
 Do not make changes that merely crash; the code should run and silently violate the property. AVOID these already-tried ideas: {' || '.join(tried) if tried else '(none recorded)'}
 
 Deliverables (write them into {wt}/_seeded/ , create the directory):
